@@ -343,7 +343,7 @@ enum B {
 fn build_once(spec: &GraphSpec, key_seed: u64) -> (B, u64) {
     hashkeys::reset(key_seed);
     let r = match sampler::build(spec) {
-        Built::Ok(s) => B::Ok(s.image()),
+        Built::Ok(s) => B::Ok(s.image_settled()),
         Built::Err(e) => B::Err(e),
         Built::Panicked(m) => B::Panicked(m),
     };
